@@ -51,6 +51,7 @@ REQUIRED = [
     'EdbVerif.C17.C17_remote_belief_partial', 'EdbVerif.C17.C17_remote_record_partial',
     'EdbVerif.C17.C17_remote_record_weak', 'EdbVerif.C17.C17_remote_record_counterexample_status2',
     'EdbVerif.C17.C17_remote_used_counterexample_failed_sync',
+    'EdbVerif.C17.C17_memo_faithful', 'EdbVerif.C17.C17_memo_counterexample',
 ]
 
 KINDS = {'S': 'bytes', 'G': 'bytes', 'R': 'map', 'C': 'map', 'Y': 'map', 'P': 'state'}
@@ -860,6 +861,8 @@ def run(ctx: core.Ctx):
     this = _sys.modules[__name__]
     results_mt = []
     results_lmt = []
+    from lib import c17churn
+    churn_runs = []
 
     def execute_mt(spec, source, stream):
         out = loop.run_until_complete(c17mt.run_history(loop, spec, source, this))
@@ -870,7 +873,9 @@ def run(ctx: core.Ctx):
         rp = json.load(open(ctx.replay))
         for f in rp['failures']:
             h = f.get('detail', {}).get('history') if isinstance(f.get('detail'), dict) else None
-            if h and h.get('lmt'):
+            if h and h.get('churn'):
+                churn_runs.append((h['churn'], *loop.run_until_complete(c17churn.run(loop, h['churn'], this))))
+            elif h and h.get('lmt'):
                 results_lmt.append((h['spec'], loop.run_until_complete(
                     c17mt.run_local_history(loop, h['spec'], h['steps'], this)), 'replay-lmt'))
             elif h and h.get('mt'):
@@ -878,6 +883,17 @@ def run(ctx: core.Ctx):
             elif h:
                 execute(h['spec'], h['steps'], 'replay')
     else:
+        # 0. churn (first: gc.collect() is cheap while the heap is small): superseded state objects are freed, addresses get reused (value-level oracle)
+        t5 = time.time()
+        per = ctx.budget(150, 1500)     # > 128: the real lru_cache must start evicting within one run
+        for variant in ('fixed', 'multitenant'):
+            for nw in (1, 2):
+                params = {'variant': variant, 'nworkers': nw, 'steps': per, 'burst': 8,
+                          'seed': ctx.rng.randrange(1 << 30)}
+                churn_runs.append((params, *loop.run_until_complete(c17churn.run(loop, params, this))))
+        ctx.log(f'churn: {sum(r[1]["steps"] for r in churn_runs)} steps, '
+                f'{sum(r[1]["address_reuse_events"] for r in churn_runs)} address reuse events '
+                f'in {time.time() - t5:.1f}s')
         # 1. the counter-histories proved in Lean, replayed on the real code
         for name, spec, steps, expect in witness_specs():
             out = execute(spec, steps, 'witness')
@@ -982,7 +998,7 @@ def run(ctx: core.Ctx):
     for spec, out, _ in results:
         all_lines.extend(out.lines)
     t2 = time.time()
-    model = ctx.driver('C17', all_lines)
+    model = ctx.driver('C17', all_lines) if all_lines else []
     if len(model) != len(all_lines):
         raise core.Infra(f'driver returned {len(model)} lines for {len(all_lines)}')
     ctx.log(f'{len(all_lines)} lines through the Lean driver in {time.time() - t2:.1f}s')
@@ -1063,6 +1079,22 @@ def run(ctx: core.Ctx):
             hist = {'lmt': True, 'spec': dict(spec, tokens={str(t): d for t, d in out.toks.desc.items()}),
                     'steps': out.steps[:(k + 1) if k is not None else None]}
             ctx.fail(key, what, dict(extra, history=hist))
+    # ---- churn stream verdicts
+    churn_cov = {'runs': len(churn_runs), 'steps': sum(r[1]['steps'] for r in churn_runs),
+                 'address_reuse_events': sum(r[1]['address_reuse_events'] for r in churn_runs),
+                 'reuse_by_kind': {k: sum(r[1]['reuse_by_kind'][k] for r in churn_runs)
+                                   for k in c17churn.KINDS},
+                 'per_run': [dict(r[0], **{k: v for k, v in r[1].items() if k != 'reuse_by_kind'})
+                             for r in churn_runs],
+                 'rule': 'real FixedPool and in-process MultiTenantPool, 1-2 workers; every step supplies a '
+                         'freshly allocated single-entry Map (unique content tag) for one of reflection '
+                         'cache / database config / system config; the harness keeps no reference to '
+                         'superseded maps (tags and id() integers only), gc.collect() + a burst of 8 '
+                         'same-shaped maps before each request, preferring a reused address; oracle by '
+                         'VALUE: recorder input tags == supplied tags, belief tags == worker tags'}
+    for params, _stats, fails in churn_runs:
+        for key, what, detail in fails:
+            ctx.fail(key, what, dict(detail, history={'churn': params}))
     if not proved:
         ctx.proof_broken_verdict()
 
@@ -1072,6 +1104,8 @@ def run(ctx: core.Ctx):
     ctx.cov.update({
         'evaluations': len(results) + len(results_mt) + len(results_lmt),
         'requests': n_req + mt_req + lmt_req,
+        'address_reuse_events': churn_cov['address_reuse_events'],
+        'churn': churn_cov,
         'multitenant_pool_in_process': {
             'histories': len(results_lmt), 'requests': lmt_req, 'histogram': lmt_stats,
             'oracle_keys_hit': lmt_keys,
@@ -1123,6 +1157,11 @@ def run(ctx: core.Ctx):
         'process transport, worker restarts / late spawns, RemotePool and MultiTenantPool are not modelled',
         'identity of Python objects is modelled by token numbers; falsiness and unpicklability are '
         'attributes of tokens',
+        'the Lean model has no address reuse: a token denotes one object for ever, and `_pickle_memoized` is '
+        'modelled as the identity (the bytes sent for an object are the pickle of that object). This is right '
+        'iff an object cannot be confused with a dead one while its memo entry lives (functools.lru_cache holds '
+        'a strong reference to its keys); stated as hypothesis MemoFaithful in Model/SyncSpec.lean '
+        '(C17_memo_faithful / C17_memo_counterexample) and TESTED on the real code by the churn stream',
     ]
     ctx.trusted_base += [
         'hand-written model EdbVerif/Model/Sync.lean; tied by the differential run above',
